@@ -128,5 +128,32 @@ theorem loopUp_noBrk_ind (body : Int → σ → σ) (P : Nat → σ → Prop) (a
     P (b - a).toNat (loopUp noBrk a b body s) :=
   loopUpN_noBrk_ind body P _ a s h0 hstep
 
+/-- Invariant rule for any loop (with or without `break`): what every iteration preserves, the loop preserves. -/
+theorem loopUpN_inv (brk : σ → Bool) (body : Int → σ → σ) (P : σ → Prop) (h : ∀ i t, P t → P (body i t)) :
+    ∀ (n : Nat) (i : Int) (s : σ), P s → P (loopUpN brk body n i s)
+  | 0, _, _, hs => hs
+  | n + 1, i, s, hs => by
+    simp only [loopUpN]
+    split
+    · exact h i s hs
+    · exact loopUpN_inv brk body P h n (i + 1) _ (h i s hs)
+
+theorem loopUp_inv (brk : σ → Bool) (body : Int → σ → σ) (P : σ → Prop) (h : ∀ i t, P t → P (body i t))
+    (a b : Int) (s : σ) (hs : P s) : P (loopUp brk a b body s) :=
+  loopUpN_inv brk body P h _ a s hs
+
+theorem loopDownN_inv (brk : σ → Bool) (body : Int → σ → σ) (P : σ → Prop) (h : ∀ i t, P t → P (body i t)) :
+    ∀ (n : Nat) (i : Int) (s : σ), P s → P (loopDownN brk body n i s)
+  | 0, _, _, hs => hs
+  | n + 1, i, s, hs => by
+    simp only [loopDownN]
+    split
+    · exact h i s hs
+    · exact loopDownN_inv brk body P h n (i - 1) _ (h i s hs)
+
+theorem loopDown_inv (brk : σ → Bool) (body : Int → σ → σ) (P : σ → Prop) (h : ∀ i t, P t → P (body i t))
+    (a b : Int) (s : σ) (hs : P s) : P (loopDown brk a b body s) :=
+  loopDownN_inv brk body P h _ a s hs
+
 end
 end Hermes.Imp
